@@ -182,7 +182,7 @@ def evaluate(i, scn):
 
 
 def main():
-    a, rep, replay = parse(PROP)
+    a, rep, replay = parse(PROP, aged=True)
     rep.assumptions = ["Varimax iterated to rtol 1e-13; settings whose iteration does not converge are skipped and counted",
                        "the simple-structure world is exact; the remaining clauses are measured on generic data with independent numpy computations"]
     if replay is not None and replay["scenario"].get("kind") == "lifecycle_path":
